@@ -57,7 +57,12 @@ def REPLAY_MODE(v):
 #                             elapsed_beats(): physical time in RT)
 #   ['bpb', cid, v]           clock.beats_per_bar = v
 #   ['playnb', rid, cid]      clock.play_next_bar(routine)
-#   program key 'flowvars': [names]
+#   ['make', rid]             Routine(body of prog['spawned'][rid]) is created
+#                             by the current thread and stored, NOT played
+#   ['schedplay', cid, d, rid]  clock.sched(d, f) with a plain function f
+#                             that does routine.play(clock, 0)
+#   program key 'flowvars': [names]; 'unseeded': [rids] routines whose
+#   generator is the main thread's unseeded one (values are not observed)
 # ---------------------------------------------------------------------------
 
 X_RAND = {
@@ -88,7 +93,7 @@ X_RAND = {
     'shuffle': None,          # in place, see Run10.do
 }
 X_OPS = ('rstate', 'etempo', 'tstop', 'sendc', 'fset', 'sendx', 'qlog', 'bpb',
-         'playnb')
+         'playnb', 'make', 'schedplay')
 
 
 class Run10(rtprog.Run):
@@ -194,6 +199,18 @@ class Run10(rtprog.Run):
                 self.clocks[st[1]].beats_per_bar = st[2]
             elif op == 'playnb':
                 self.clocks[st[2]].play_next_bar(self.routines[st[1]])
+            elif op == 'make':
+                from sc3.base.stream import Routine
+                r = Routine(self._body(st[1], self.prog['spawned'][st[1]]))
+                self.routines[st[1]] = r
+                self.names[id(r)] = st[1]
+            elif op == 'schedplay':
+                c = self.clocks[st[1]]
+                r = self.routines[st[3]]
+
+                def f():
+                    r.play(c, 0)
+                self.clocks[st[1]].sched(st[2], f)
         except Exception as e:
             if type(e).__name__ in ('Abort',):
                 raise
@@ -436,7 +453,7 @@ def programs(tier, seed):
                     idx += 1
     for p in two_clock_programs() + spawn_programs() + rand_programs() + \
             main_programs() + stop_programs() + multiwait_programs() + \
-            moved_programs():
+            moved_programs() + created_programs():
         yield idx, p
         idx += 1
 
@@ -645,6 +662,71 @@ def moved_programs():
     return out
 
 
+def created_programs():
+    """The generator a routine inherits is fixed when the routine is
+    CREATED, not when it is played.  Forward: C is created inside seeded A
+    (after A drew twice; A never draws again), stored, and started by
+    somebody else - routine B with another seed (play / next), a plain
+    function task on the clock, the main thread: A's draws followed by C's
+    must be the first values of A's stream ('ref': A draws them all).
+    Reverse: C is created at top level (main thread's unseeded generator)
+    and played / nexted by seeded A: A's stream must be what it is when C
+    draws nothing."""
+    out = []
+    cbody = [['rand', 'rrand'], ['rand', 'rrand'], ['yield', 0.125],
+             ['rand', 'rrand']]
+    for c in ('s', 't2', 'a'):
+        clocks = {'s': ['system']}
+        clocks[c] = c05.CLOCKSPEC[c]
+
+        def prog(routines, main, seq, ref_a, spawned=None, **kw):
+            p = {'clocks': clocks, 'routines': routines, 'funcs': {},
+                 'conds': ['c0'], 'created': True, 'seq': seq,
+                 'actors': {'main': main}, 'horizon': 8.0}
+            if spawned:
+                p['spawned'] = spawned
+            p.update(kw)
+            p['ref'] = {'clocks': clocks, 'funcs': {}, 'conds': ['c0'],
+                        'routines': {'A': ref_a, 'B': [['seed', 9]]},
+                        'actors': {'main': [['play', 'A', c, 0]]},
+                        'horizon': 8.0}
+            return p
+        head = [['seed', 7], ['rand', 'rrand'], ['rand', 'rrand']]
+        ref5 = head + [['rand', 'rrand']] * 3
+        both = [['play', 'A', c, 0], ['play', 'B', c, 0]]
+        sp = {'C': cbody}
+        # forward
+        out.append(prog(
+            {'A': head + [['make', 'C'], ['yield', 1.0]],
+             'B': [['seed', 9], ['rand', 'rrand'], ['yield', 0.25],
+                   ['play', 'C', c, 0], ['yield', 0.25],
+                   ['rand', 'rrand']]},
+            both, ['A', 'C'], ref5, sp))
+        out.append(prog(
+            {'A': head + [['make', 'C'], ['yield', 1.0]],
+             'B': [['seed', 9], ['rand', 'rrand'], ['yield', 0.25],
+                   ['next', 'C'], ['rand', 'rrand']]},
+            both, ['A', 'C'], ref5, sp))
+        out.append(prog(
+            {'A': head + [['make', 'C'], ['schedplay', c, 0.25, 'C'],
+                          ['yield', 1.0]],
+             'B': [['seed', 9]]},
+            [['play', 'A', c, 0]], ['A', 'C'], ref5, sp))
+        out.append(prog(
+            {'A': head + [['make', 'C'], ['yield', 1.0]],
+             'B': [['seed', 9]]},
+            [['next', 'A'], ['play', 'C', c, 0]], ['A', 'C'], ref5, sp))
+        # reverse
+        tail = [['yield', 0.5], ['rand', 'rrand'], ['rand', 'rrand']]
+        ref4 = head + [['rand', 'rrand']] * 2
+        for start in ([['play', 'C', c, 0]], [['next', 'C']]):
+            out.append(prog(
+                {'A': head + start + tail, 'B': [['seed', 9]],
+                 'C': cbody},
+                [['play', 'A', c, 0]], ['A'], ref4, unseeded=['C']))
+    return out
+
+
 def stop_programs():
     """A routine stops the TempoClock it (or the other routine) runs on
     with the public TempoClock.stop(); nothing else is due at the instant of
@@ -818,7 +900,10 @@ def observe(prog, res, mode):
         elif k == 'log':
             per.setdefault(e[1], []).append(['log', e[3], e[4]])
         elif k == 'rand':
-            per.setdefault(e[1], []).append(['rand', e[2]])
+            # a routine that holds the main thread's unseeded generator:
+            # the draw is observed, its value is not decided
+            per.setdefault(e[1], []).append(
+                ['rand', None if e[1] in prog.get('unseeded', ()) else e[2]])
         elif k == 'raises':
             per.setdefault(e[1], []).append(['raises', e[2][0], e[3]])
         elif k == 'send':
@@ -912,7 +997,7 @@ def one_thread(prog):
         for st in b:
             if st[0] in ('play', 'spawn', 'resume') and len(st) > 2:
                 used.add(st[2])
-            elif st[0] in ('sched', 'sched_abs', 'playnb'):
+            elif st[0] in ('sched', 'sched_abs', 'playnb', 'schedplay'):
                 used.add(st[1] if st[0] != 'playnb' else st[2])
     used.discard(None)
     return len(used) == 1
@@ -1059,9 +1144,38 @@ def work_indep(job):
     return acc.result()
 
 
+def check_created(prog):
+    a = observe(prog, run_nrt(prog), 'nrt')
+    b = observe(prog['ref'], run_nrt(prog['ref']), 'nrt')
+    got = [e[1] for w in prog['seq'] for e in a['per'].get(w, [])
+           if e[0] == 'rand']
+    want = [e[1] for e in b['per'].get('A', []) if e[0] == 'rand']
+    if got != want[:max(len(got), 1)] or not got:
+        return [('child-generator-not-the-one-inherited-at-creation',
+                 want, got,
+                 'values drawn by ' + '+'.join(prog['seq']) + ' / by a '
+                 'routine A that draws them all itself')], got
+    return [], got
+
+
+def work_created(job):
+    acc = progenum.Acc(max_samples=1)
+    for idx, prog in job['progs']:
+        case = {'prog': prog, 'part': 'created'}
+        dis, got = check_created(prog)
+        for kind, exp, obs, detail in dis:
+            acc.violation(kind, case, exp, obs, detail)
+        acc.case(case, bool(got), got)
+    return acc.result()
+
+
 def replay(job):
     case = job['case']
     prog = case['prog']
+    if case.get('part') == 'created':
+        dis, got = check_created(prog)
+        return {'violates': bool(dis), 'drawn': got,
+                'expected': dis[0][1] if dis else None}
     if case.get('part') == 'independence':
         a = observe(prog, run_nrt(prog), 'nrt')
         b = observe(silence_others(prog),
@@ -1329,8 +1443,13 @@ def main(ctx):
            if len(p['routines'].get('A', ())) < 8 and not p.get('spawn')
            and not p.get('randfam') and not p.get('inherit')
            and not p.get('multiwait') and not p.get('moved')
+           and not p.get('created')
            and any(st[0] == 'rand' for st in p['routines'].get('A', ()))
            and any(st[0] == 'rand' for st in p['routines'].get('B', ()))]
+    progenum.run(ctx, MODNAME, 'work_created',
+                 [{'progs': b} for b in chunked(
+                     [(i, p) for i, p in progs if p.get('created')], 6)],
+                 mode='nrt', bound='generator inherited at creation')
     progenum.run(ctx, MODNAME, 'work_indep',
                  [{'progs': b} for b in chunked(rnd, 200)], mode='nrt',
                  bound='random independence')
